@@ -43,8 +43,8 @@ TECH = {
  "C12": "validator verdict comparator vs literal reference",
  "C13": "invalid-argument table under ASan/UBSan + malloc/dlopen conservation ledger",
  "C14": "history + set-model monitor, registry walk, counter preset, gcc+clang; allocation-failure enumeration of create with live siblings",
- "C15": "page-protection monitor (read-only inputs, guard pages) + cross-history output comparison",
- "C16": "random histories under ASan+LeakSanitizer and conservation ledger + allocation-failure enumeration (malloc failpoint, forked cases)",
+ "C15": "page-protection monitor (read-only inputs, guard pages) + cross-history output comparison; ASan and valgrind memcheck underneath",
+ "C16": "random histories under ASan+LeakSanitizer, valgrind memcheck and conservation ledger + allocation-failure enumeration (malloc failpoint, forked cases)",
  "C17": "failing-stub injection at the plugin boundary, natural init failures, libisal inversion failpoint: every call position",
  "C18": "ThreadSanitizer stress (per-thread stripe variants, shared inputs) + directed interleavings via guarded yield hooks",
  "C19": "codec monitors on ISA-L adapters over clean-room libisal + inversion failpoint",
